@@ -45,10 +45,10 @@ var CorrelateFields = []string{
 
 func Elements() *intermediate.AggregationElements {
 	e := &intermediate.AggregationElements{
-		NonStatsElements:             []string{"flowEndSeconds", "flowEndReason", "tcpState"},
-		AntreaFlowEndSecondsElements: []string{"flowEndSecondsFromSourceNode", "flowEndSecondsFromDestinationNode"},
-		ThroughputElements:           []string{"throughput", "reverseThroughput"},
-		SourceThroughputElements:     []string{"throughputFromSourceNode", "reverseThroughputFromSourceNode"},
+		NonStatsElements:              []string{"flowEndSeconds", "flowEndReason", "tcpState"},
+		AntreaFlowEndSecondsElements:  []string{"flowEndSecondsFromSourceNode", "flowEndSecondsFromDestinationNode"},
+		ThroughputElements:            []string{"throughput", "reverseThroughput"},
+		SourceThroughputElements:      []string{"throughputFromSourceNode", "reverseThroughputFromSourceNode"},
 		DestinationThroughputElements: []string{"throughputFromDestinationNode", "reverseThroughputFromDestinationNode"},
 	}
 	for i := 0; i < NC; i++ {
